@@ -539,6 +539,15 @@ def casadi_to_sympy_dir(ctx, n_trees, depth):
         ctx.tally("casadi_to_sympy:constant")
         if st == "bad":
             ctx.violation("casadi_to_sympy_value", "OP_CONST", {"constant": cval, **det})
+    # ... and constants of extreme magnitude (beyond the 64-bit integer range, near the smallest normal double) used with
+    # arguments that bring the value back to O(1)
+    for cval in (1e19, 9223372036854775808.0, 1.8446744073709552e19, -6.02214076e23, 1e30, -1e300, 2.0 ** 62, 4.9e-300, -2.2250738585072014e-308):
+        e = ca.SX(cval) * V[0] + V[1]
+        pts = [np.array([3.0 / cval, 0.5, 0.0]), np.array([-1.25 / cval, 2.0, 0.0]), np.array([0.0, 1.0, 0.0])]
+        st, det = c2s_agree(cts, e, V, names, pts)
+        ctx.tally("casadi_to_sympy:extreme_constant")
+        if st == "bad":
+            ctx.violation("casadi_to_sympy_value", "OP_CONST", {"constant": cval, **det})
     # symbol table: the same parameter always maps to the same sympy symbol within one table
     syms = {}
     s1 = cts(V[0] + V[1], syms)
